@@ -284,6 +284,7 @@ cpa('cache_full_race', ['ALLOC1(0);ALLOC1(1);FREE1(0);FREE1(1)', 'ALLOC1(0);FREE
 cpa('batch', ['ALLOC2(0);FREE2(0)', 'ALLOC1(0);FREE1(0)'], cap=2, tiers=TH, qcap=1500, timeout=7200)
 cpa('keep_one', ['ALLOC1(0);ALLOC1(1);FREE1(0)', 'ALLOC1(0);FREE1(0)'], cap=2, tiers=TH, qcap=1500, timeout=7200)
 S('pa_seq_batch_wraps_ring', 'pagealloc/cpa_seq.cpp', {'assert': 'C17'}, extra=PAX, models=['sc'], bound=16)
+S('pa_seq_partial_batch', 'pagealloc/cpa_seq.cpp', {'assert': 'C17'}, extra=PAX, models=['sc'], bound=16, defs=['VF_PARTIAL=1'], tiers=DEV)      # symbolic cache fill x batch size x refill: exploration > 7 min, not validated in time: dev tier
 cpa('one_thread_cycle', ['ALLOC1(0);FREE1(0);ALLOC1(1);FREE1(1)'], cap=1)
 
 # ----------------------------------------------------------------------------------------------- C06: monotonic resources (sequential)
